@@ -117,7 +117,7 @@ pub struct RunOut {
     pub leftover_parked: usize,
 }
 
-async fn do_op<TC: ModelCfg, R: Reader<TC>>(r: &R, w: Option<&Dir<TC>>, op: &Op) -> OpResult {
+pub async fn do_op<TC: ModelCfg, R: Reader<TC>>(r: &R, w: Option<&Dir<TC>>, op: &Op) -> OpResult {
     match op {
         Op::Publish(b) => OpResult::Publish(match w {
             Some(d) => d.publish(to_akd_batch(b)).await,
